@@ -1,5 +1,3 @@
-use std::str::Chars;
-
 #[derive(PartialEq, Debug, Clone)]
 pub enum TokenKind<'a, 'b> {
     Element(ElementToken<'a, 'b>),
@@ -22,173 +20,66 @@ pub struct Token<'a, 'b, 'c> {
     pub byte_end: usize,
 }
 
-enum State<'a, 'b> {
-    Text,
-    DelimiterStart(Chars<'a>),
-    InDelimiter,
-    DelimiterEnd(Chars<'b>),
-}
-
 pub fn tokenize<'a, 'b, 'c>(
     source: &'a str,
     delimiter_start: &'b str,
     delimiter_end: &'c str,
 ) -> Vec<Token<'a, 'b, 'c>> {
-    let (mut tokens, state, byte_start_pos, start_pos, current) = source.char_indices().fold(
-        (vec![], State::Text, 0, 0, 0),
-        |(mut tokens, state, mut byte_start_pos, mut start_pos, current): (
-            Vec<Token<'a, 'b, 'c>>,
-            State,
-            usize,
-            usize,
-            usize,
-        ),
-         (byte_pos, c)| {
-            let (token_kind, next_state) = get_state(&c, delimiter_start, delimiter_end, state);
+    let mut tokens = vec![];
+    let mut byte_pos = 0;
+    let mut pos = 0;
 
-            if let Some(token_kind) = token_kind {
-                if (byte_pos - byte_start_pos) > 0 {
-                    tokens.push(Token {
-                        value: &source[byte_start_pos..byte_pos],
-                        kind: token_kind,
-                        start: start_pos,
-                        byte_start: byte_start_pos,
-                        end: current,
-                        byte_end: byte_pos,
-                    });
-                }
+    while byte_pos < source.len() {
+        // Leftmost start delimiter, at least one body character,
+        // then the first end delimiter that begins after that character.
+        let element = source[byte_pos..].find(delimiter_start).and_then(|i| {
+            let element_start = byte_pos + i;
+            let body_start = element_start + delimiter_start.len();
+            let first_body_char = source[body_start..].chars().next()?;
+            let search_from = body_start + first_body_char.len_utf8();
 
-                start_pos = current;
-                byte_start_pos = byte_pos;
-            };
+            source[search_from..]
+                .find(delimiter_end)
+                .map(|j| (element_start, search_from + j + delimiter_end.len()))
+        });
 
-            (tokens, next_state, byte_start_pos, start_pos, current + 1)
-        },
-    );
-
-    let (token_kind, _) = get_state(&' ', delimiter_start, delimiter_end, state);
-
-    let last_byte_pos = source.char_indices().last();
-    let additional_token = match last_byte_pos {
-        Some((byte_pos, _)) => match token_kind {
-            None => Some(Token {
-                value: &source[byte_start_pos..],
-                kind: TokenKind::Text,
-                start: start_pos,
-                byte_start: byte_start_pos,
-                end: current,
-                byte_end: byte_pos + 1,
-            }),
-            _ => Some(Token {
-                value: &source[byte_start_pos..byte_pos + 1],
-                kind: token_kind.unwrap(),
-                start: start_pos,
-                byte_start: byte_start_pos,
-                end: current,
-                byte_end: byte_pos + 1,
-            }),
-        },
-        None => None,
-    };
-
-    if let Some(token) = additional_token {
-        tokens.push(token);
-    }
-
-    tokens.into_iter().fold(vec![], |mut acc, cur| {
-        let merged = {
-            let last_token = acc.last_mut();
-            match last_token {
-                Some(last_token) => {
-                    if last_token.kind == TokenKind::Text && cur.kind == TokenKind::Text {
-                        last_token.value = &source[last_token.byte_start..cur.byte_end];
-                        last_token.end = cur.end;
-                        last_token.byte_end = cur.byte_end;
-
-                        true
-                    } else {
-                        false
-                    }
-                }
-                None => false,
-            }
-        };
-
-        if !merged {
-            acc.push(cur);
-        }
-
-        acc
-    })
-}
-
-fn check_delimiter_start<'a, 'b>(c: &char, delimiter_start: &'a str) -> State<'a, 'b> {
-    let mut delimiter_start_chars = delimiter_start.chars();
-
-    if *c == delimiter_start_chars.next().unwrap() {
-        State::DelimiterStart(delimiter_start_chars)
-    } else {
-        State::Text
-    }
-}
-
-fn get_state<'a, 'b>(
-    c: &char,
-    delimiter_start: &'a str,
-    delimiter_end: &'b str,
-    state: State<'a, 'b>,
-) -> (Option<TokenKind<'a, 'b>>, State<'a, 'b>) {
-    match state {
-        State::Text => match check_delimiter_start(c, delimiter_start) {
-            State::DelimiterStart(delimiter_start_chars) => (
-                Some(TokenKind::Text),
-                State::DelimiterStart(delimiter_start_chars),
-            ),
-            _ => (None, State::Text),
-        },
-        State::DelimiterStart(mut current_chars) => {
-            let current_char = current_chars.next();
-
-            match current_char {
-                Some(current_char) => {
-                    if *c == current_char {
-                        (None, State::DelimiterStart(current_chars))
-                    } else {
-                        (None, State::Text)
-                    }
-                }
-                None => (None, State::InDelimiter),
-            }
-        }
-        State::InDelimiter => {
-            let mut delimiter_end_chars = delimiter_end.chars();
-            if *c == delimiter_end_chars.next().unwrap() {
-                (None, State::DelimiterEnd(delimiter_end_chars))
-            } else {
-                (None, state)
-            }
-        }
-        State::DelimiterEnd(mut current_chars) => {
-            let current_char = current_chars.next();
-
-            match current_char {
-                Some(current_char) => {
-                    if *c == current_char {
-                        (None, State::DelimiterEnd(current_chars))
-                    } else {
-                        (None, State::InDelimiter)
-                    }
-                }
-                None => (
-                    Some(TokenKind::Element(ElementToken {
+        let spans = match element {
+            Some((element_start, element_end)) => [
+                (TokenKind::Text, byte_pos, element_start),
+                (
+                    TokenKind::Element(ElementToken {
                         delimiter_start,
                         delimiter_end,
-                    })),
-                    check_delimiter_start(c, delimiter_start),
+                    }),
+                    element_start,
+                    element_end,
                 ),
+            ],
+            None => [
+                (TokenKind::Text, byte_pos, byte_pos),
+                (TokenKind::Text, byte_pos, source.len()),
+            ],
+        };
+
+        for (kind, byte_start, byte_end) in spans {
+            if byte_start < byte_end {
+                let value = &source[byte_start..byte_end];
+                let end = pos + value.chars().count();
+                tokens.push(Token {
+                    kind,
+                    value,
+                    start: pos,
+                    byte_start,
+                    end,
+                    byte_end,
+                });
+                pos = end;
+                byte_pos = byte_end;
             }
         }
     }
+
+    tokens
 }
 
 #[cfg(test)]
